@@ -271,11 +271,55 @@ class Rejects(Case):
         return {"__raises__": "*"}
 
 
+class DefaultOrder(Case):
+    """the default conventions a shell hands to the transformation: Cartesian components in the documented order and
+    spherical labels s_l .. s_1, c_0, c_1 .. c_l (m = -l .. l); the matrix generated from the shell's own defaults equals
+    the one generated from the documented order (ground obligation, finite: every l = 0..10)"""
+
+    prop = "C10"
+    canary_scale = None
+    conformance = False
+    run_canary = False
+
+    def inputs(self, mk):
+        return dict(mk=mk)
+
+    def _shell(self, mk):
+        from gbasis.contractions import GeneralizedContractionShell
+
+        l = self.params["l"]
+        return GeneralizedContractionShell(l, np.array([0.0, 0.0, 0.0]), np.array([[1.0]]), np.array([1.0]), "spherical")
+
+    def code(self, I, mk):
+        from gbasis.spherical import generate_transformation
+
+        sh = self._shell(mk)
+        labs = tuple(sh.angmom_components_sph)
+        want = tuple(H.default_sph_labels(self.params["l"]))
+        same = [1.0 if (i < len(labs) and labs[i] == want[i]) else 0.0 for i in range(len(want))] + [1.0 if len(labs) == len(want) else 0.0]
+        cart_ok = 1.0 if [tuple(int(x) for x in c) for c in sh.angmom_components_cart] == [tuple(c) for c in G.comps(self.params["l"])] else 0.0
+        out = {"labels": np.array(same + [cart_ok])}
+        if self.params["l"] <= 4:  # the matrices for the documented order are decided by Harmonic / HarmonicRef for every l
+            out["T"] = np.asarray(generate_transformation(sh.angmom, sh.angmom_components_cart, labs, "left")).view(np.ndarray)
+        return out
+
+    def ref(self, I, ops, mk):
+        from gbasis.spherical import generate_transformation
+
+        l = self.params["l"]
+        out = {"labels": np.array([1.0] * (2 * l + 3))}
+        if l <= 4:
+            out["T"] = np.asarray(generate_transformation(l, np.array(G.comps(l)), tuple(H.default_sph_labels(l)), "left")).view(np.ndarray)
+        return out
+
+
 def cases(tier, seed=0):
     out = []
     lmax = 6 if tier == "quick" else 10
     for l in range(lmax + 1):
         out.append(Harmonic(l=l))
+    for l in range(11):
+        out.append(DefaultOrder(l=l))
     if tier == "quick":
         for l in range(lmax + 1, 11):
             out.append(HarmonicRef(l=l, heavy=True))
